@@ -44,6 +44,8 @@ Inductive expr :=
 | EBinU (op : binop) (a b : expr)      (* the operation carried out in unsigned int (32 bits, wraps) *)
 | EReadByte (x : string)               (* fread(&x, 1, 1, f) with x an unsigned char local: 1 and x set, or 0 at end of stream *)
 | EWriteByte (e : expr)                (* fwrite(&x, 1, 1, f): 1 and the byte appended, or 0 when the stream refuses it *)
+| EReadInt32 (x : string)              (* fread(p, sizeof(int), 1, f), p an int*: the cell x := the next four bytes, little-endian (the x86 host); 1, or 0 with the rest of the stream consumed *)
+| EWriteInt32 (e : expr)               (* fwrite(&v, sizeof(int), 1, f): the four bytes of v, little-endian; 1, or 0 with as many bytes as the stream still took *)
 | EPtrAdd (p e : expr)                 (* p + e on a char pointer *)
 | EPostDec (x : string)
 | EPreDec (x : string).
@@ -310,6 +312,30 @@ Fixpoint eval (e : expr) (s : state) : option (val * state) :=
     | b :: r => match set_var x (VInt b) {| vars := vars s; inb := r; outb := outb s |} with
                 | Some s1 => Some (VInt 1, s1) | None => None end
     | [] => Some (VInt 0, s)
+    end
+  | EReadInt32 x =>
+    match inb s with
+    | b0 :: b1 :: b2 :: b3 :: r =>
+      match set_var x (VInt ((b0 + 256 * b1 + 65536 * b2 + 16777216 * b3 + 2147483648) mod u32 - 2147483648)) {| vars := vars s; inb := r; outb := outb s |} with
+      | Some s1 => Some (VInt 1, s1) | None => None end
+    | _ => Some (VInt 0, {| vars := vars s; inb := []; outb := outb s |})
+    end
+  | EWriteInt32 a =>
+    match eval a s with
+    | Some (VInt z, s1) =>
+      match lookup budget_var (vars s1) with
+      | Some (VInt k) =>
+        let u := z mod u32 in
+        let bytes := [u mod 256; (u / 256) mod 256; (u / 65536) mod 256; (u / 16777216) mod 256] in
+        if 4 <=? k then
+          match set_var budget_var (VInt (k - 4)) {| vars := vars s1; inb := inb s1; outb := outb s1 ++ bytes |} with
+          | Some s2 => Some (VInt 1, s2) | None => None end
+        else
+          match set_var budget_var (VInt 0) {| vars := vars s1; inb := inb s1; outb := outb s1 ++ firstn (Z.to_nat k) bytes |} with
+          | Some s2 => Some (VInt 0, s2) | None => None end
+      | _ => None
+      end
+    | _ => None
     end
   | EPtrAdd p a =>
     match eval p s with
